@@ -121,6 +121,17 @@ def run(v, tier, seed, replay):
                     kind, _, h = val.partition(":")
                     if kind == "lit" and unhex(h) != rv:
                         mism.append((c, "model emits literal %r for property %r, the real macro produced %r" % (unhex(h), rk, rv)))
+    # D15 (fixed): a hand-written function returning a boxed future, with statements before the `Box::pin(async move ..)` tail
+    d = by.get("boxed")
+    if ok:
+        if d is None:
+            tls_fails.append("the boxed-future twin (statements before a Box::pin(async move { .. }) tail) produced no result")
+        else:
+            if d["plain"] != d["traced"] or d["plainlog"] != d["tracedlog"] or d["plain"] != d["bare"] or d["plainlog"] != d["barelog"]:
+                tls_fails.append("annotated `boxed_traced` (statements before a Box::pin(async move { .. }) tail) returned %r with side effects %r; the plain twin %r / %r"
+                                 % (d["traced"], d["tracedlog"], d["plain"], d["plainlog"]))
+            if len(d["recs"]) != 1 or d["recs"][0][1] != "root" or not d["recs"][0][0].endswith("::boxed_traced") or d["barerecs"]:
+                tls_fails.append("`boxed_traced` recorded %r (without a local parent: %r); expected exactly one span `…::boxed_traced` under the caller's local parent" % (d["recs"], d["barerecs"]))
     for msg in tls_fails[:2]:
         v.violation(msg, {"scenario": "harness/fh-macro/src/main.rs: tls_teardown (a thread-local registered before the thread's first tracing call; its destructor calls the twins)"})
     if not fails and not tls_fails and mism:
